@@ -243,6 +243,17 @@ def handleTuple (j : Json) : Except String Verdict := do
   | _ => throw s!"C04 tuple: unknown op {opk}"
 
 def handleC04 (j : Json) : Except String Verdict := do
-  if (← fStr j "op") == "tuple" then handleTuple j else handleC04Core j
+  if (← fStr j "op") == "tuple" then handleTuple j else
+  let v1 ← handleC04Core j
+  -- a second pass over the same fiber objects after both operands were re-declared wider and grown: judged like
+  -- a fresh case on the grown trees and extents
+  match j.getObjVal? "impl2" with
+  | .ok i2 =>
+    let j2 := ((((j.setObjVal! "impl" i2).setObjVal! "a" (← field j "a2")).setObjVal! "b" (← field j "b2")).setObjVal!
+      "sa" (← field j "sa2")).setObjVal! "sb" (← field j "sb2")
+    let v2 ← handleC04Core j2
+    pure { v1 with agree := v1.agree && v2.agree, spec := v1.spec && v2.spec, tags := v1.tags ++ ["regrown"],
+                   why := if v1.agree && v1.spec && !(v2.agree && v2.spec) then "second pass after growth differs" else v1.why }
+  | _ => pure v1
 
 end FtDriver
